@@ -443,13 +443,43 @@ func (v *PacketDslVisitorImpl) VisitInerObjectField(ctx *gen.InerObjectFieldCont
 		subFieldNames[f.Name] = true
 		subFields = append(subFields, f)
 	}
+	// when the object holds match fields, index its members and link each match field to its
+	// key field, as for a top-level packet (the generators look both up through these maps)
+	var subFieldMap map[string]*model.Field
+	var subMatchFields map[string][]model.MatchPair
+	for _, f := range subFields {
+		if _, ok := f.Attr.(*model.MatchFieldAttribute); ok && subFieldMap == nil {
+			subFieldMap = make(map[string]*model.Field)
+			subMatchFields = make(map[string][]model.MatchPair)
+			for _, member := range subFields {
+				subFieldMap[member.Name] = member
+			}
+		}
+	}
+	for _, f := range subFields {
+		if mf, ok := f.Attr.(*model.MatchFieldAttribute); ok {
+			if key, found := subFieldMap[mf.MatchKeyField.Name]; found {
+				mf.MatchKeyField = key
+				subMatchFields[key.Name] = mf.MatchPairs
+			} else {
+				v.BinModel.AddSyntaxError(&model.SyntaxError{
+					Line:            ctx.GetStart().GetLine(),
+					Column:          ctx.GetStart().GetTokenSource().GetCharPositionInLine(),
+					Msg:             "Unknown match key field " + mf.MatchKeyField.Name + " for match field " + f.Name + " in " + name,
+					OffendingSymbol: nil,
+				})
+			}
+		}
+	}
 	// Construct nested Packet model
 	p := model.Packet{
-		Name:   name,
-		IsRoot: false,
-		Fields: subFields,
-		Line:   ctx.GetStart().GetLine(),
-		Column: ctx.GetStart().GetTokenSource().GetCharPositionInLine(),
+		Name:        name,
+		IsRoot:      false,
+		Fields:      subFields,
+		FieldMap:    subFieldMap,
+		MatchFields: subMatchFields,
+		Line:        ctx.GetStart().GetLine(),
+		Column:      ctx.GetStart().GetTokenSource().GetCharPositionInLine(),
 	}
 	return &model.Field{
 		Name:     name,
